@@ -37,7 +37,7 @@ def run(prop, repo):
         else:
             exe = os.path.join(work, 'target', 'debug', 'examples', 'zz_falsify')
             try:
-                p = subprocess.run([exe, prop], cwd=dst, capture_output=True, text=True, timeout=600)
+                p = subprocess.run([exe, prop], cwd=dst, capture_output=True, text=True, timeout=3000 if os.environ.get('VERIF_TIER') == 'thorough' else 600)
                 res['raw'] = p.stdout[-6000:]
                 for line in p.stdout.split('\n'):
                     m = re.match(r'FALSIFIED (.*?) :: (.*) :: (.*)$', line)
